@@ -48,7 +48,7 @@ T["C09"] = ("Lean theorems: (gate) in ANY entry state a load that returns conten
   "a fault during the file phase makes the store fail before the marker — DERIVED from C15's copyAll_ok (marker_only_after_reported_success, fault_fires_then_store_errors; the pre-fix behaviour is "
   "cache_poison_counterexample); tar layout: the single object is old or the complete archive at every instant (tar_instant_old_or_new …). Tied on every run by crash-prefix enumeration of the real store's traced "
   "primitives under real parallel copies, fault schedules, multi-writer histories with the real locker protocol, tampering, tar corruption, SIGKILL campaign, cold and WARM cache providers",
-  "Trusted: Lean kernel; Cache/CacheDigest models tied by correspondence (loadD through load_abstracts_loadD); SHAKE256 collision resistance is the explicit NoCollision hypothesis (and U+000A-free paths: the recorded C08 finding); "
+  "Trusted: Lean kernel; Cache/CacheDigest models tied by correspondence (loadD through load_abstracts_loadD); SHAKE256 collision resistance is the explicit NoCollision hypothesis; "
   "flock mutual exclusion assumed; b5 keys only")
 
 T["C10"] = ("Lean theorems over the shared graph model: module de-duplication prefers target over non-target and local over remote (stated for uniqueAdded, what the driver runs); every module directory's buf.lock is honoured in v1 "
@@ -143,8 +143,8 @@ T["C20"] = ("Lean theorems: exit status is 0 iff nothing to report, 100 iff the 
   "about a thousand runs of the real buf binary (lint / breaking / build / format in every mode, dep graph for import-not-found) on generated workspaces with planted problems",
   "Trusted: Lean kernel; Annot model tied by correspondence; encoding/json and encoding/xml escaping are library (decoded on every case); a failing write of the annotations is not modelled")
 
-T["C08"] = ("Lean theorems for all file sets and dependency lists of the model: manifest text round-trips and is injective, the digest is a function of the module-file set (any walk order, non-module files ignored, dep order "
-  "irrelevant), and — under the explicit hypothesis that the hash does not collide on the strings compared — differs whenever module files or dependency digests differ, for b5 AND b4 (b4_sensitive) and through module "
+T["C08"] = ("Lean theorems for all file sets and dependency lists of the model: manifest text round-trips and is injective for every node list accepted by NewFileNode (which, after /repo 8ef24f2, rejects a line feed in a path: the two former U+000A findings are repaired; the pre-fix behaviour stays as counterexample theorems), the digest is a function of the module-file set (any walk order, non-module files ignored, dep order "
+  "irrelevant), and — under the explicit hypothesis that the hash does not collide on the strings compared — differs whenever module files or dependency digests differ with NO side condition on the paths (a successful digest implies newline-free module files: digest_ok_newline_free), for b5 AND b4 (b4_sensitive) and through module "
   "sets (moduleSet_sensitive: a changed file of a transitive local dependency changes every dependant's digest; moduleDigest_fuel_any_numbering); module-file matcher constants are regenerated from /repo and pinned by a "
   "decide-theorem. Tied on every run by generated file sets across memory/disk/tar/shuffled-walk backends, perturbations, and an independent SHAKE256 recomputation of the published b5 construction",
   "Trusted: Lean kernel; Manifest/Digest model tied by correspondence; hash H is a parameter (table computed by Go); SHAKE256 collision resistance is a hypothesis; ModuleDeps resolution is an input")
